@@ -53,6 +53,11 @@ type C12Case struct {
 	Readers int        `json:"readers,omitempty"`
 	Procs   int        `json:"procs,omitempty"`
 	Gap     int        `json:"gap,omitempty"` // stress: reader operations the writer waits for between steps
+	// Second: owned mode - the NEXT step of the script is issued from another goroutine while the
+	// first writer is suspended (it must wait); stress mode - a second goroutine keeps calling
+	// Verify(remember=true) with the honest proofs of Extra while the script runs.
+	Second bool       `json:"second,omitempty"`
+	Extra  []C12Query `json:"extra,omitempty"` // stress+second: leaf sets (resolved in their State) verified with remember by the second writer
 }
 
 var c12QueryKinds = []string{"roots", "stump", "prove", "verify", "leafpos", "leafposs", "gethash", "missing", "numleaves", "treerows", "write", "vpp"}
@@ -142,6 +147,17 @@ func genC12(t *rapid.T) C12Case {
 		c.Readers = rapid.IntRange(1, 6).Draw(t, "readers")
 		c.Procs = rapid.SampledFrom([]int{1, 2, 4, 8, 16}).Draw(t, "procs")
 		c.Gap = rapid.IntRange(0, 40).Draw(t, "gap")
+	}
+	c.Second = rapid.IntRange(0, 2).Draw(t, "second") == 0
+	if c.Second && c.Mode == "stress" {
+		ne := rapid.IntRange(1, 4).Draw(t, "nextra")
+		for i := 0; i < ne; i++ {
+			q := C12Query{Kind: "verify-remember", State: rapid.IntRange(0, n).Draw(t, "xstate")}
+			if states[q.State].NumLive() > 0 {
+				q.Slots = genRequest(t, states[q.State])
+				c.Extra = append(c.Extra, q)
+			}
+		}
 	}
 	// queries: every kind at least once, arguments resolved in a state near the pause
 	for _, k := range c12QueryKinds {
@@ -365,6 +381,8 @@ func runC12(c C12Case) *Result {
 	}
 	// sequential replica: answer of every query in every state
 	ans := make([][]string, n+1)
+	calls := make([]func(in *Inst) error, n)
+	var finalTracked []int
 	{
 		w := newWorld([]Cfg{c.Cfg})
 		for k := 0; k <= n; k++ {
@@ -373,6 +391,7 @@ func runC12(c C12Case) *Result {
 					res.class("setup-failed")
 					return res
 				}
+				calls[k-1] = w.lastCall
 			}
 			ans[k] = make([]string, len(rq))
 			for i, q := range rq {
@@ -383,12 +402,35 @@ func runC12(c C12Case) *Result {
 				}
 			}
 		}
+		finalTracked = w.trackedList()
 	}
 	res.class("mode:" + c.Mode)
-	if c.Mode == "owned" {
-		return runC12Owned(c, rq, ans, res)
+	if c.Second {
+		res.class("second-writer:" + c.Mode)
 	}
-	return runC12Stress(c, rq, ans, res)
+	if c.Mode == "owned" {
+		return runC12Owned(c, rq, ans, calls, res)
+	}
+	// second writer's calls
+	var extra []c12Resolved
+	if c.Second {
+		for _, q := range c.Extra {
+			if q.State < 0 || q.State > n {
+				return res.failf("case error: extra state %d", q.State)
+			}
+			f := states[q.State]
+			r := c12Resolved{kind: "verify-remember"}
+			for _, sl := range q.Slots {
+				if sl < 0 || sl >= len(f.Hashes) || f.Dead[sl] {
+					return res.failf("case error: extra names slot %d which is not live in state %d", sl, q.State)
+				}
+				r.hashes = append(r.hashes, f.Hashes[sl])
+			}
+			r.proof = f.View().Proof(r.hashes)
+			extra = append(extra, r)
+		}
+	}
+	return runC12Stress(c, rq, ans, calls, extra, states[n], finalTracked, res)
 }
 
 const c12Stall = 60 * time.Second
@@ -407,19 +449,19 @@ func c12Stalled(res *Result, what string) *Result {
 	return res
 }
 
-func runC12Owned(c C12Case, rq []c12Resolved, ans [][]string, res *Result) *Result {
+func runC12Owned(c C12Case, rq []c12Resolved, ans [][]string, calls []func(in *Inst) error, res *Result) *Result {
 	n := len(c.Steps)
 	if c.Pause < 0 || c.Pause >= n {
 		return res.failf("case error: pause step %d", c.Pause)
 	}
-	w := newWorld([]Cfg{c.Cfg})
+	inst := newInst(c.Cfg)
 	for i := 0; i < c.Pause; i++ {
-		if ce, oe := w.step(i, c.Steps[i]); ce != nil || oe != nil {
+		if err := calls[i](inst); err != nil {
 			res.class("setup-failed")
 			return res
 		}
 	}
-	m := w.insts[0].M
+	m := inst.M
 	paused := make(chan struct{})
 	release := make(chan struct{})
 	var armed atomic.Bool
@@ -440,8 +482,7 @@ func runC12Owned(c C12Case, rq []c12Resolved, ans [][]string, res *Result) *Resu
 	writerDone := make(chan [2]error, 1)
 	go func() {
 		writerGID.Store(curGID())
-		ce, oe := w.step(c.Pause, c.Steps[c.Pause])
-		writerDone <- [2]error{ce, oe}
+		writerDone <- [2]error{nil, calls[c.Pause](inst)}
 	}()
 	reached := false
 	select {
@@ -472,6 +513,24 @@ func runC12Owned(c C12Case, rq []c12Resolved, ans [][]string, res *Result) *Resu
 			results[i] = qres{out, reached && !released.Load()}
 		}(i)
 	}
+	// second writer: the next step of the script, issued while the first writer is suspended inside
+	// its critical section. It has to wait for the lock; it must not complete during the pause.
+	second := c.Second && reached && c.Pause+1 < n
+	var secondErr error
+	var secondEarly bool
+	if second {
+		wg.Add(1)
+		go func() {
+			defer wg.Done()
+			defer func() {
+				if p := recover(); p != nil {
+					secondErr = fmt.Errorf("panic: %v", p)
+				}
+			}()
+			secondErr = calls[c.Pause+1](inst)
+			secondEarly = !released.Load()
+		}()
+	}
 	if reached {
 		// grace period: an opportunity for a wrongly unlocked query to finish. A query that is
 		// still blocked is fine, so timing can only cause a miss, never an alarm.
@@ -496,6 +555,18 @@ func runC12Owned(c C12Case, rq []c12Resolved, ans [][]string, res *Result) *Resu
 		return c12Stalled(res, "the writer after release")
 	}
 	before, afterS := ans[c.Pause], ans[c.Pause+1]
+	final := afterS
+	if second {
+		what := fmt.Sprintf("step %d (%s) issued from a second goroutine while the writer was suspended inside step %d (%s) at %s#%d", c.Pause+1, c.Steps[c.Pause+1].Op, c.Pause, c.Steps[c.Pause].Op, c.Site, c.Occ)
+		if secondEarly {
+			return res.failf("%s COMPLETED during the pause: the two writers were inside the forest at the same time", what)
+		}
+		if secondErr != nil {
+			return res.failf("%s failed although the same call succeeds when the steps run one after the other: %v", what, secondErr)
+		}
+		final = ans[c.Pause+2]
+		res.count("second-writer-steps", 1)
+	}
 	early := 0
 	for i, r := range results {
 		q := c.Queries[i]
@@ -510,15 +581,15 @@ func runC12Owned(c C12Case, rq []c12Resolved, ans [][]string, res *Result) *Resu
 			}
 			continue
 		}
-		if !c12Matches(q.Kind, r.out, before[i], afterS[i]) {
+		if !c12Matches(q.Kind, r.out, before[i], afterS[i]) && !(second && c12Matches(q.Kind, r.out, afterS[i], final[i])) {
 			return res.failf("query %s concurrent with step %d (%s, writer suspended at %s#%d) returned %q; before the step the answer is %q, after it %q",
 				q.Kind, c.Pause, c.Steps[c.Pause].Op, c.Site, c.Occ, r.out, before[i], afterS[i])
 		}
 	}
 	// the final state must be the sequential one
 	for i, q := range rq {
-		if got := evalQuery(m, q); got != afterS[i] {
-			return res.failf("after step %d ran concurrently with the queries, query %s answers %q, sequentially it answers %q", c.Pause, c.Queries[i].Kind, got, afterS[i])
+		if got := evalQuery(m, q); got != final[i] {
+			return res.failf("after step %d ran concurrently with the queries (second writer: %v), query %s answers %q, sequentially it answers %q", c.Pause, second, c.Queries[i].Kind, got, final[i])
 		}
 	}
 	if reached {
@@ -553,7 +624,7 @@ func c12Matches(kind, got, a, b string) bool {
 	return true
 }
 
-func runC12Stress(c C12Case, rq []c12Resolved, ans [][]string, res *Result) *Result {
+func runC12Stress(c C12Case, rq []c12Resolved, ans [][]string, calls []func(in *Inst) error, extra []c12Resolved, finalF *model.Forest, finalTracked []int, res *Result) *Result {
 	n := len(c.Steps)
 	if c.Readers < 1 || c.Readers > 64 {
 		return res.failf("case error: readers %d", c.Readers)
@@ -561,8 +632,20 @@ func runC12Stress(c C12Case, rq []c12Resolved, ans [][]string, res *Result) *Res
 	if c.Procs > 0 {
 		defer runtime.GOMAXPROCS(runtime.GOMAXPROCS(c.Procs))
 	}
-	w := newWorld([]Cfg{c.Cfg})
-	m := w.insts[0].M
+	inst := newInst(c.Cfg)
+	m := inst.M
+	secondWriter := len(extra) > 0
+	// with a second writer remembering further leaves the stored set of a partial forest no longer
+	// follows the sequential replica: readers then only ask storage-independent questions
+	storageFree := func(kind string) bool {
+		switch kind {
+		case "roots", "stump", "numleaves", "treerows", "verify":
+			return true
+		case "prove", "leafpos", "leafposs":
+			return c.Cfg.Full
+		}
+		return false
+	}
 	var done atomic.Int64   // completed writer steps
 	var ops atomic.Int64    // reader operations
 	var stop atomic.Bool    // writer finished
@@ -580,6 +663,11 @@ func runC12Stress(c C12Case, rq []c12Resolved, ans [][]string, res *Result) *Res
 					if extra > len(rq) {
 						return
 					}
+				}
+				if secondWriter && !storageFree(rq[i].kind) {
+					i = (i + 1) % len(rq)
+					ops.Add(1)
+					continue
 				}
 				a := done.Load()
 				out := evalQuery(m, rq[i])
@@ -625,6 +713,30 @@ func runC12Stress(c C12Case, rq []c12Resolved, ans [][]string, res *Result) *Res
 		}(r)
 	}
 	var werr [2]error
+	var secondCalls, secondOK atomic.Int64
+	if secondWriter {
+		wg.Add(1)
+		go func() {
+			defer wg.Done()
+			for k := 0; !stop.Load(); k++ {
+				x := extra[k%len(extra)]
+				func() {
+					defer func() {
+						if p := recover(); p != nil {
+							msg := fmt.Sprintf("second writer: Verify(remember=true) panicked: %v", p)
+							firstErr.CompareAndSwap(nil, &msg)
+						}
+					}()
+					if err := m.Verify(cloneHashes(x.hashes), cloneProof(x.proof), true); err == nil {
+						secondOK.Add(1)
+					}
+				}()
+				secondCalls.Add(1)
+				ops.Add(1)
+				runtime.Gosched()
+			}
+		}()
+	}
 	wdone := make(chan struct{})
 	go func() {
 		defer close(wdone)
@@ -633,9 +745,9 @@ func runC12Stress(c C12Case, rq []c12Resolved, ans [][]string, res *Result) *Res
 			for spins := 0; ops.Load() < target && firstErr.Load() == nil && spins < 200000; spins++ {
 				runtime.Gosched()
 			}
-			ce, oe := w.step(i, st)
-			if ce != nil || oe != nil {
-				werr = [2]error{ce, oe}
+			_ = st
+			if err := calls[i](inst); err != nil {
+				werr = [2]error{nil, err}
 				return
 			}
 			done.Add(1)
@@ -661,7 +773,26 @@ func runC12Stress(c C12Case, rq []c12Resolved, ans [][]string, res *Result) *Res
 		res.class("setup-failed")
 		return res
 	}
+	if secondWriter {
+		// whatever the interleaving of the script with the second writer's Verify(remember) calls was,
+		// the forest must still be the final state of the script: model roots, only true hashes stored,
+		// every leaf the script remembered still provable (what else got remembered is not asserted)
+		if werr[0] == nil && werr[1] == nil {
+			if c.Cfg.Full {
+				if err := checkFullForest(inst, finalF, nil, true); err != nil {
+					return res.failf("after the script ran concurrently with %d Verify(remember=true) calls of a second goroutine (%d accepted): %v", secondCalls.Load(), secondOK.Load(), err)
+				}
+			} else if err := checkPartialForest(inst, finalF, finalTracked, false); err != nil {
+				return res.failf("after the script ran concurrently with %d Verify(remember=true) calls of a second goroutine (%d accepted): %v", secondCalls.Load(), secondOK.Load(), err)
+			}
+		}
+		res.count("second-writer-verify-calls", int(secondCalls.Load()))
+		res.count("second-writer-verify-accepted", int(secondOK.Load()))
+	}
 	for i, q := range rq {
+		if secondWriter && !storageFree(q.kind) {
+			continue
+		}
 		if got := evalQuery(m, q); got != ans[n][i] {
 			return res.failf("after the concurrent run query %s answers %q, sequentially %q", q.kind, got, ans[n][i])
 		}
